@@ -3,11 +3,15 @@ C11 — Search returns a legal move whenever the time limit may expire (partial:
 is replaced by the index `k` of the first poll that reports expiry; that `DurationTimeout` is
 monotone is an assumption about `Instant`).
 
-`Engine.search b tf k prev` is the model of `Engine::search` with a timeout firing at poll `k`.
+`Engine.search pos b tf k prev` is the model of `Engine::search` of an engine with `positional = pos` (the shipped
+configuration `Engine::default()` is `pos = false`) and a timeout firing at poll `k`.  Every statement holds for both
+values of the flag: the proofs use of the evaluation only that it returns a numeric score.
 -/
 import ChessVerif.Model.Engine
 import ChessVerif.Proofs.Search
 import ChessVerif.Proofs.CliGame
+import ChessVerif.Proofs.Referee
+import ChessVerif.Proofs.Search.Depth0
 
 namespace Chess.Props.C11
 open Chess Chess.Engine
@@ -25,12 +29,12 @@ theorem poll_monotone (k : Nat) (st st' : St) (h : st.polls ≤ st'.polls) (hd :
   simp only [poll, decide_eq_true_eq] at *; omega
 
 /-- with the limit already expired no root move is ever accepted -/
-theorem rootMove_expired (board : Board) (pc : Color) (depth : Nat) (tf : ThreeFold) (mv : Move) (p : Pass) (st : St) :
-    (rootMove 0 board pc depth tf mv p st).1 = none := by
+theorem rootMove_expired (pos : Bool) (board : Board) (pc : Color) (depth : Nat) (tf : ThreeFold) (mv : Move) (p : Pass) (st : St) :
+    (rootMove pos 0 board pc depth tf mv p st).1 = none := by
   simp [rootMove, poll]
 
-theorem rootLoop_expired (board : Board) (pc : Color) (depth : Nat) (tf : ThreeFold) :
-    ∀ (n : Nat) (g : MoveGen) (p : Pass) (st : St), (rootLoop 0 board pc depth tf n g p st).1 = p := by
+theorem rootLoop_expired (pos : Bool) (board : Board) (pc : Color) (depth : Nat) (tf : ThreeFold) :
+    ∀ (n : Nat) (g : MoveGen) (p : Pass) (st : St), (rootLoop pos 0 board pc depth tf n g p st).1 = p := by
   intro n
   induction n with
   | zero => intro g p st; rfl
@@ -40,7 +44,7 @@ theorem rootLoop_expired (board : Board) (pc : Color) (depth : Nat) (tf : ThreeF
     split
     · rfl
     · rename_i mv g' _
-      have h := rootMove_expired board pc depth tf mv p st
+      have h := rootMove_expired pos board pc depth tf mv p st
       split
       · rfl
       · rename_i p' st' heq
@@ -48,8 +52,8 @@ theorem rootLoop_expired (board : Board) (pc : Color) (depth : Nat) (tf : ThreeF
 
 /-- **expiry at once** (`k = 0`): for every board and history the search returns no move — and so
 trivially not an illegal one — after a bounded amount of work -/
-theorem search_immediate (b : Board) (tf : ThreeFold) (prev : Nat) :
-    (search b tf 0 prev).move = none := by
+theorem search_immediate (pos : Bool) (b : Board) (tf : ThreeFold) (prev : Nat) :
+    (search pos b tf 0 prev).move = none := by
   unfold search deepen
   simp only [Nat.zero_add]
   split
@@ -63,45 +67,45 @@ theorem search_immediate (b : Board) (tf : ThreeFold) (prev : Nat) :
 open Chess.Spec Chess.Proofs.Search in
 /-- **a returned move is legal** — every board, every repetition history, every index `k` at which
 the timeout first reports expiry, every stale `max_depth`: the move is one the generator yields … -/
-theorem search_legal (b : Board) (tf : ThreeFold) (k prev : Nat) (mv : Move)
-    (h : (search b tf k prev).move = some mv) : mv ∈ Props.C10.movesOf (MoveGen.legals b) :=
-  Proofs.Search.search_legal b tf k prev mv h
+theorem search_legal (pos : Bool) (b : Board) (tf : ThreeFold) (k prev : Nat) (mv : Move)
+    (h : (search pos b tf k prev).move = some mv) : mv ∈ Props.C10.movesOf (MoveGen.legals b) :=
+  Proofs.Search.search_legal pos b tf k prev mv h
 
 open Chess.Spec in
 /-- … which on well-formed boards (C06, C02: every parsed and every reachable position) means legal
 by the rules of chess -/
-theorem search_legal_spec (b : Board) (hwf : b.WF = true) (tf : ThreeFold) (k prev : Nat) (mv : Move)
-    (h : (search b tf k prev).move = some mv) : (abs b).legal mv = true :=
-  Proofs.Search.search_legal_spec b hwf tf k prev mv h
+theorem search_legal_spec (pos : Bool) (b : Board) (hwf : b.WF = true) (tf : ThreeFold) (k prev : Nat) (mv : Move)
+    (h : (search pos b tf k prev).move = some mv) : (abs b).legal mv = true :=
+  Proofs.Search.search_legal_spec pos b hwf tf k prev mv h
 
 /-- **no legal move: no move returned** -/
-theorem search_none (b : Board) (tf : ThreeFold) (k prev : Nat)
-    (h : (MoveGen.legals b).isEmpty = true) : (search b tf k prev).move = none :=
-  Proofs.Search.search_none b tf k prev h
+theorem search_none (pos : Bool) (b : Board) (tf : ThreeFold) (k prev : Nat)
+    (h : (MoveGen.legals b).isEmpty = true) : (search pos b tf k prev).move = none :=
+  Proofs.Search.search_none pos b tf k prev h
 
 open Chess.Spec in
-theorem search_none_spec (b : Board) (hwf : b.WF = true) (tf : ThreeFold) (k prev : Nat)
-    (h : (abs b).legalMoves = []) : (search b tf k prev).move = none :=
-  Proofs.Search.search_none_spec b hwf tf k prev h
+theorem search_none_spec (pos : Bool) (b : Board) (hwf : b.WF = true) (tf : ThreeFold) (k prev : Nat)
+    (h : (abs b).legalMoves = []) : (search pos b tf k prev).move = none :=
+  Proofs.Search.search_none_spec pos b hwf tf k prev h
 
 open Chess.Proofs.Search in
 /-- the first pass did not finish before the limit: no move is returned -/
-theorem search_unfinished (b : Board) (tf : ThreeFold) (k prev : Nat)
-    (h : firstPassFinished b tf k = false) : (search b tf k prev).move = none :=
-  Proofs.Search.search_unfinished b tf k prev h
+theorem search_unfinished (pos : Bool) (b : Board) (tf : ThreeFold) (k prev : Nat)
+    (h : firstPassFinished pos b tf k = false) : (search pos b tf k prev).move = none :=
+  Proofs.Search.search_unfinished pos b tf k prev h
 
 open Chess.Proofs.Search in
 /-- **a move is returned whenever legal moves exist and the first deepening pass finished** -/
-theorem search_some (b : Board) (tf : ThreeFold) (k prev : Nat)
-    (hf : firstPassFinished b tf k = true) (hm : (MoveGen.legals b).isEmpty = false) :
-    (search b tf k prev).move.isSome = true :=
-  Proofs.Search.search_some b tf k prev hf hm
+theorem search_some (pos : Bool) (b : Board) (tf : ThreeFold) (k prev : Nat)
+    (hf : firstPassFinished pos b tf k = true) (hm : (MoveGen.legals b).isEmpty = false) :
+    (search pos b tf k prev).move.isSome = true :=
+  Proofs.Search.search_some pos b tf k prev hf hm
 
 open Chess.Spec Chess.Proofs.Search in
-theorem search_some_spec (b : Board) (hwf : b.WF = true) (tf : ThreeFold) (k prev : Nat)
-    (hf : firstPassFinished b tf k = true) (hm : (abs b).legalMoves ≠ []) :
-    (search b tf k prev).move.isSome = true :=
-  Proofs.Search.search_some_spec b hwf tf k prev hf hm
+theorem search_some_spec (pos : Bool) (b : Board) (hwf : b.WF = true) (tf : ThreeFold) (k prev : Nat)
+    (hf : firstPassFinished pos b tf k = true) (hm : (abs b).legalMoves ≠ []) :
+    (search pos b tf k prev).move.isSome = true :=
+  Proofs.Search.search_some_spec pos b hwf tf k prev hf hm
 
 /-! ### the consumer: the game loop of the command line (`Model/Cli.lean`) -/
 
@@ -115,5 +119,68 @@ theorem cli_game_loop_never_asserts (fuel : Nat) (b : Board) (hwf : b.WF = true)
 /-- non-vacuity: with the limit expiring at once the loop ends with "no move" on the standard board -/
 example : (match Cli.gameLoop 3 Board.standard [] 0 [0] with
     | .ok (o, _) => o == .noMove | .error _ => false) = true := by decide +kernel
+
+/-! ### the consumer: the referee of `chess-cli bot-fight` (`Model/Referee.lean`) over two loads of the plugin
+
+`Referee.game ks`: one game from the standard position, `ks` the poll indices at which the successive evaluations' limits
+expire (the wall clock as a parameter).  Whatever the clock does: -/
+
+/-- the two engines hold the same board and the same repetition table throughout -/
+theorem referee_lock_step (ks : List Nat) : (Referee.game ks).a = (Referee.game ks).b := Referee.game_sync ks
+
+open Chess.Spec in
+/-- **the recorded game is a legal game of chess** from the standard position (every move the referee took from an
+engine was legal in the position reached; it never consults `is_valid`) -/
+theorem referee_game_legal (ks : List Nat) (hk : ks.length < 60000) :
+    (abs Board.standard).playable (Referee.game ks).moves := Referee.game_legal ks hk
+
+open Chess.Spec in
+/-- **a win is a checkmate by the rules, credited to the side that made the last move** -/
+theorem referee_checkmate_truthful (ks : List Nat) (w : Bool) (h : (Referee.game ks).result = .checkMate w) :
+    (abs (Referee.game ks).a.board).classify = .checkMate ∧
+    (Referee.game ks).a.board.turn = (if w then .black else .white) := Referee.game_checkMate ks w h
+
+open Chess.Proofs.Search in
+/-- **"didn't move" is said of the side to move, and only when its search was cut short** before the first deepening
+pass finished (legal moves exist whenever the referee asks) -/
+theorem referee_didnt_move_truthful (ks : List Nat) (w : Bool) (h : (Referee.game ks).result = .didntMove w) :
+    w = ((Referee.game ks).a.board.turn == .white) ∧
+    ∃ k ∈ ks, firstPassFinished false (Referee.game ks).a.board (Referee.game ks).a.table k = false :=
+  Referee.game_didntMove ks w h
+
+/-- … from any well-formed position and any common state of the two engines, not only the standard start -/
+theorem referee_loop_moves (fuel : Nat) (s : Bot.State) (hwf : s.board.WF = true) (ms : List Move) (ks : List Nat) :
+    ∃ new, (Referee.loop fuel s s ms ks).moves = ms ++ new ∧ new.length ≤ ks.length ∧
+      Book.playAll (fun b m => Board.moveNew b m) s.board new = some (Referee.loop fuel s s ms ks).a.board :=
+  Referee.loop_moves fuel s hwf ms ks
+
+/-- non-vacuity: with every limit expired at once the game is "White didn't move" after no move -/
+example : (Referee.game [0]).result = .didntMove true ∧ (Referee.game [0]).moves = [] := by decide +kernel
+
+/-! ### non-vacuity of the `pos` argument
+
+(stated without the numbers of the evaluation, which the translator re-reads from the source on every run: a retuned
+piece-square map must not break an example) -/
+
+/-- the flag is not ignored by the evaluation: after 1. e4 the positional engine and the shipped one score differently -/
+example : eval true (Board.standard.moveUnchecked ⟨12, 28, none⟩) ≠ eval false (Board.standard.moveUnchecked ⟨12, 28, none⟩) := by
+  decide +kernel
+
+/-- `Engine.search true` with the limit expiring at once, on the standard board -/
+example : (search true Board.standard [] 0).move = none ∧ (search true Board.standard [] 0).score = .min := by
+  decide +kernel
+
+open Chess.Proofs.Search in
+/-- `Engine.search` on the standard board with the limit expiring right after the first deepening pass (20 root moves,
+one poll each, and the closing poll): under both configurations the first pass finishes and a move is returned, as
+`search_some` says it must -/
+example : firstPassFinished true Board.standard [] 21 = true ∧ firstPassFinished false Board.standard [] 21 = true ∧
+    (search true Board.standard [] 21).move.isSome = true ∧ (search false Board.standard [] 21).move.isSome = true := by
+  have h1 : firstPassFinished true Board.standard [] 21 = true := by
+    unfold firstPassFinished; rw [firstPass_eq0]; decide +kernel
+  have h2 : firstPassFinished false Board.standard [] 21 = true := by
+    unfold firstPassFinished; rw [firstPass_eq0]; decide +kernel
+  have hm : (MoveGen.legals Board.standard).isEmpty = false := by decide +kernel
+  exact ⟨h1, h2, search_some true _ _ 21 0 h1 hm, search_some false _ _ 21 0 h2 hm⟩
 
 end Chess.Props.C11
